@@ -2,7 +2,7 @@
    the saved allocator / stand-in pair of TestHarness_c.cpp, blocks handed out before out-of-memory begins and released,
    reallocated or copied from while it lasts and after it was cleared. *)
 From Coq Require Import ZArith NArith Bool List Lia ZifyBool.
-From CppUVerif Require Import lib.Str C15_Model C15_Proofs.
+From CppUVerif Require Import lib.Str C15_Model C15_Proofs C15_InTest.
 Import ListNotations.
 Local Open Scope Z_scope.
 
@@ -402,7 +402,7 @@ Qed.
 
 Theorem run_meets_spec : forall s, valid s = true -> spec s (run s) = true.
 Proof.
-  intros [ops|custom cops|b rops] Hv; simpl in *.
+  intros [ops|custom cops|b rops|pre su bo td] Hv; [simpl in *..|exact (trun_check pre su bo td Hv)].
   - apply run_check; [apply inv0|exact Hv].
   - apply crun_check; [apply ci0|exact Hv].
   - apply andb_prop in Hv. destruct Hv as [Hb Hv]. apply negb_true_iff in Hb.
